@@ -85,21 +85,29 @@ D(tuple_count, count_defect<0>()) D(pair_count, count_defect<1>()) D(array_count
 D(lb_capacity, lb_defect<0>()) D(lb_multiple, lb_defect<1>()) D(lb_ary_capacity, lb_ary_defect()) D(variant, variant_defect())
 D(prefix_u16, scalar_prefix_defect<u16>()) D(prefix_i32, scalar_prefix_defect<i32>()) D(prefix_bool, scalar_prefix_defect<bool>()) D(prefix_float, scalar_prefix_defect<float>()) D(prefix_E8, scalar_prefix_defect<E8>()) D(prefix_u64, scalar_prefix_defect<u64>()) D(prefix_char, scalar_prefix_defect<char>())
 
-// Valid encodings that make the decoder SKIP inside a nested frame (inner table entry unknown to / deleted in the reading
-// definition): library and reference decoder agree on accept, value and consumed length, with further data behind.
+// A valid encoding that makes the decoder SKIP inside a nested frame (the inner table carries an entry that the reading
+// definition lacks / has deleted): it must be accepted, yield the values the bytes denote and consume exactly the encoding
+// (two further bytes follow).  Bytes are laid out by hand from docs/format.md.
 template <typename RT>
-static void nested_skip_vs_ref() {
-  OW w; Meta<OW>::draw(&w); const u8 trailer = nd8();
-  std::uint8_t buf[40] = {}; Out o(buf, sizeof buf); Meta<OW>::enc(w, o); const std::size_t n = o.n; o.put(trailer); o.put(trailer);
-  vassume(o.fits());
-  RT a, b; Meta<RT>::draw(&a); Meta<RT>::draw(&b);
-  Rd<PBR> r(buf, o.n); auto st = r.read(&a);
-  In in(buf, o.n); const bool ok = Meta<RT>::dec(in, &b);
-  vassert(ok && !!st, 1);
-  vassert(Meta<RT>::eq(a, b), 2);
-  vassert(r.consumed() == in.pos && in.pos == n, 3);
+static void nested_skip_accept() {
+  const bool va = ndbool(), vx = ndbool(); float vb; Meta<float>::draw(&vb); const u8 trailer = nd8();
+  std::uint8_t buf[32] = {}; Out o(buf, sizeof buf);
+  o.put(0xb5); ref_enc_uint(o, 0x62); ref_enc_uint(o, 2);
+  ref_enc_uint(o, 1); ref_enc_uint(o, 13);                                        // outer entry 1: the inner table, 13 bytes
+  o.put(0xb5); ref_enc_uint(o, 0x61); ref_enc_uint(o, 2);
+  ref_enc_uint(o, 1); ref_enc_uint(o, 1); Meta<bool>::enc(va, o);                 //   inner entry 1: bool
+  ref_enc_uint(o, 2); ref_enc_uint(o, 5); Meta<float>::enc(vb, o);                //   inner entry 2: float (unknown to ORl, known to ORd)
+  ref_enc_uint(o, 2); ref_enc_uint(o, 1); Meta<bool>::enc(vx, o);                 // outer entry 2: bool
+  const std::size_t n = o.n; o.put(trailer); o.put(trailer);
+  vassume(o.fits()); vassert(n == 21, 8);
+  RT r; Meta<RT>::draw(&r);
+  Rd<PBR> rd(buf, o.n); auto st = rd.read(&r);
+  vassert(!!st, 1);
+  vassert(rd.consumed() == n, 2);
+  vassert(!r.x.empty() && r.x.get() == vx && !r.in.empty(), 3);
+  vrt_observe(rd.consumed());
   vrt_end();
 }
-//@h nested_skip_vs_ref : loop:ReadEntries=3 timeout=900
-extern "C" void hq_nested_skip_vs_ref_lack(void) { nested_skip_vs_ref<ORl>(); }
-extern "C" void ht_nested_skip_vs_ref_deleted(void) { nested_skip_vs_ref<ORd>(); }
+//@h nested_skip_accept : loop:ReadEntries=3 timeout=900
+extern "C" void hq_nested_skip_accept_lack(void) { nested_skip_accept<ORl>(); }
+extern "C" void ht_nested_skip_accept_deleted(void) { nested_skip_accept<ORd>(); }
